@@ -7,6 +7,7 @@ require (
 	github.com/grafana/carbon-relay-ng v0.0.0
 	github.com/metrics20/go-metrics20 v0.0.0-20180821133656-717ed3a27bf9
 	github.com/sirupsen/logrus v1.1.2-0.20181020050904-08e90462da34
+	github.com/streadway/amqp v0.0.0-20170521212453-dfe15e360485
 )
 
 replace github.com/grafana/carbon-relay-ng => /repo
